@@ -150,7 +150,13 @@ Fixpoint resolve (n : node) (p : ypath) : list loc :=
 Definition ref_is_key (r : ref) (k : node) : bool :=
   match r with RKey kv => py_eq (key_val k) kv | _ => false end.
 
-(* recurse(data, parent, parentref, reference_node, replacement_node) *)
+Definition ref_is_idx (r : ref) (idx : nat) : bool :=
+  match r with RIdx j => Nat.eqb j idx | _ => false end.
+
+(* recurse(data, parent, parentref, reference_node, replacement_node), as repaired
+   by the fix: commits aaea88e / f917898 of branch `mutate` (cherry-picked into
+   branch `save`): a reference is replaced when it carries an `anchor` attribute
+   (every alias, wherever it lives) or is the addressed child of the parent *)
 Fixpoint subst (poid : N) (pref : ref) (old : N) (oldattr : bool) (new : node) (n : node) : node :=
   match n with
   | NLeaf _ _ => n
@@ -161,8 +167,13 @@ Fixpoint subst (poid : N) (pref : ref) (old : N) (oldattr : bool) (new : node) (
                      then (if oldattr || (N.eqb (oid i) poid && ref_is_key pref k) then (k, new) else (k, v))
                      else (k, subst poid pref old oldattr new v)) kvs)
   | NSeq i els =>
-      NSeq i (map (fun v => if N.eqb (node_oid v) old && (N.eqb (oid i) poid || oldattr)
-                            then new else subst poid pref old oldattr new v) els)
+      NSeq i ((fix go (l : list node) (idx : nat) : list node :=
+                 match l with
+                 | [] => []
+                 | v :: r =>
+                     (if N.eqb (node_oid v) old && (oldattr || (N.eqb (oid i) poid && ref_is_idx pref idx))
+                      then new else subst poid pref old oldattr new v) :: go r (S idx)
+                 end) els 0)
   | NSet _ _ => n
   end.
 
